@@ -124,9 +124,17 @@ def check_population_step(state, sampler, beta, violations, ctx):
         return r
     sampler._get_shuffled_iterator_indices = spy
     log = []
+    from leaspy.exceptions import LeaspyException
     try:
         with record_draws(log):
             sampler.sample(state, temperature_inv=beta)
+    except LeaspyException:
+        raise
+    except (ArithmeticError, ValueError, TypeError, IndexError, RuntimeError) as e:
+        # a sampler step on a valid state takes its decisions and returns: an arithmetic / value error escaping from it means
+        # a proposal was neither accepted nor rejected
+        violations.append(dict(key=f"population sampler {name}: the step raised {type(e).__name__} instead of deciding every block", error=str(e)[:200], **ctx))
+        return 0
     finally:
         del sampler._get_shuffled_iterator_indices
     kinds = [k for k, _ in log]
@@ -241,6 +249,31 @@ def run(tier, seed, which=("ind", "pop")):
                         continue
                     evals += e
                     distinct.add((kind, str(kw), name, "extreme"))
+                    if violations:
+                        break
+        if not violations and "pop" in which and (k == 0 or tier != "quick"):
+            # overwhelmingly better proposals: a sharp likelihood (tiny noise) and a population variable far from where the data
+            # want it make exp(-D) exceed every finite number; such a proposal is simply accepted (U < exp(-D) holds)
+            model3, state3, ds3, df3 = make_model_state(kind, kw, n_ft, seed=seed + k)
+            algo3 = make_algo(model3, state3, ds3, seed, sampler_pop=pops[(k + 1) % 3])
+            first_pop = next((nm for nm, sp_ in algo3.samplers.items() if type(sp_).__name__ != "IndividualGibbsSampler"), None)
+            if first_pop is not None and "noise_std" in state3.dag:
+                with state3.auto_fork(None):
+                    state3["noise_std"] = torch.full_like(state3["noise_std"], 2e-3)
+                    state3[first_pop] = state3[first_pop] + 1.5
+                sampler = algo3.samplers[first_pop]
+                sampler.std = torch.full_like(sampler.std, 0.3)
+                torch.manual_seed(seed + 77)
+                for sweep in range(6 if tier == "quick" else 20):
+                    beta3 = [1.0, 0.5][sweep % 2]
+                    ctx = dict(model=kind, hyper=str(kw), variable=first_pop, sweep=f"overwhelming improvement {sweep}", beta=beta3, seed=seed + k, sampler=type(sampler).__name__)
+                    from leaspy.exceptions import LeaspyModelInputError
+                    try:
+                        e = check_population_step(state3, sampler, beta3, violations, ctx)
+                    except LeaspyModelInputError:
+                        break
+                    evals += e
+                    distinct.add((kind, str(kw), first_pop, "overwhelming", sweep))
                     if violations:
                         break
         if tier != "quick" and not violations:
